@@ -32,6 +32,8 @@ func runC06(c *Ctx) {
 	defer c06DrawSelects(c)
 	c.Rule("C06.R6", "EDF pick: Peek and re-queue of the picked entry in one critical section", 1)
 	defer c06PickAtomic(c)
+	c.Rule("C06.R7", "the balancer a snapshot publishes is built from the host set (and weights) the same snapshot publishes", 1)
+	defer snapshotLBBuiltFromItsHostSet(c, "C06.R7")
 	c.Rule("C06.R1", "cumulative-weight scan uses an exact idiom (strict comparison)", 4)
 	c.Rule("C06.R2", "draw range equals the sum of the scanned weights; single writer", 4)
 	c.Rule("C06.R3", "EDF deadline update shape: deadline += 1/weight from the current deadline, time advances to served deadline, min-heap order; every host scheduled", 7)
